@@ -139,6 +139,16 @@ def check_case(case):
     permuted = S.build_screen(dict(sc, rows=[rows[i] for i in perm]), treatment_mapping=tm, sample_mapping=sm)
     swapped = S.build_screen(dict(sc, rows=[dict(r, t=r["t"][::-1], d=r["d"][::-1]) for r in rows]), treatment_mapping=tm, sample_mapping=sm)
     holder = S.build_holder(case["thetas"])
+    if case["perm_seed"] % 3:
+        # the table is a dict: its insertion order (sorted, as one add_observations call leaves it, or any other, as several calls do)
+        # is not part of a sample's parameters
+        for th_ in holder.thetas:
+            tab_ = getattr(th_, "single_effect_lookup", None)
+            if isinstance(tab_, dict) and len(tab_) > 1:
+                items_ = list(tab_.items())
+                order_ = np.random.default_rng(case["perm_seed"]).permutation(len(items_))
+                tab_.clear()
+                tab_.update([items_[i_] for i_ in order_])
     if case.get("int_table"):
         # the same table values, whole numbers written as Python ints (1 instead of 1.0): equal parameters, another representation
         for th_ in holder.thetas:
